@@ -90,6 +90,26 @@ def handle (inp out : String) : String :=
         | _ => some "short-impl-output"
       verdict "aggc" s!"{one l1} {one l2}" out spec
     | _, _, _, _, _ => "skip bad-aggc-args"
+  | ["agg3", algo, inHex, ls, s1, s2, s3] =>
+    -- one chain object aggregated three times: every answer is the one for its own start level, whatever was asked before
+    match algo.toNat?, ofHex inHex, parseLinks ls, s1.toNat?, s2.toNat?, s3.toNat? with
+    | some a, some input, some links, some l1, some l2, some l3 =>
+      let one (st : Nat) : String :=
+        if st > 0xff then s!"{St.INVALID_ARGUMENT} - -" else showAgg (aggregate H a links input st)
+      let spec := match ow with
+        | [a1, b1, c1, a2, b2, c2, a3, b3, c3] =>
+          ((aggOracle a l1 input links [a1, b1, c1]).orElse fun _ => aggOracle a l2 input links [a2, b2, c2]).orElse fun _ =>
+            (if l3 ≤ 0xff then aggOracle a l3 input links [a3, b3, c3] else if a3 == "0" then some "out-of-range-start-level-answered" else none)
+        | _ => some "short-impl-output"
+      verdict "agg3" s!"{one l1} {one l2} {one l3}" out spec
+    | _, _, _, _, _, _ => "skip bad-agg3-args"
+  | ["aggr", algo, _start, _inHex, _ls, refLevel, refRoot] =>
+    -- a chain under an algorithm the driver has no implementation of: the generator's reference (another implementation) decides
+    let want := s!"0 {refLevel} {refRoot}"
+    if out == want then s!"ok aggr:a{algo}" else s!"specfail aggr:a{algo} root-differs-from-the-reference-computed-with-an-independent-implementation-of-the-algorithm want={want}"
+  | ["aggx", _algo, _start, _inHex, _ls] =>
+    -- a link that was given two kinds of sibling is not a link of the format: never aggregated
+    if (ow.headD "?") == "0" then "specfail aggx a-link-with-two-kinds-of-sibling-was-aggregated" else s!"ok aggx:{ow.headD "?"}"
   | ["cal", inHex, ls] =>
     match ofHex inHex, parseCalLinks ls with
     | some input, some links =>
